@@ -232,6 +232,41 @@ def run(ctx: core.Ctx):
                                   dict(kind="write-sequence-big", writes=[dict(size=n, drain=d) for n, d in sc], start_seq=s0, reassembled=shown))
             break
 
+    # ---- B1d: the split size of the server's packets does not depend on what the client announces: handshake responses with
+    #      max_packet_size 0 / 2^16 / 2^20 / 2^22 / 2^24-1 / 2^24 / 2^30, then a result whose single cell is around those sizes;
+    #      a standard client (a payload continues only after a packet of exactly 2^24-1 bytes) must reassemble the same row
+    for mp in ((1 << 16, 1 << 20, 0, 1 << 30) if ctx.quick else (0, 1 << 16, 1 << 20, 1 << 22, M, 1 << 24, 1 << 30)):
+        if ctx.violations:
+            break
+        for vs in sorted({1, 300, mp - 4 if mp and mp < (1 << 23) else 65532, mp + 10 if mp and mp < (1 << 23) else 65546}):
+            value = ("v" * vs)
+            env = impl.Env(own_sleep=False)
+            try:
+                class BigS(impl.ScriptSession):
+                    async def handle_query(self, sql, attrs):
+                        return [(value,)], ["c"]
+                srv = impl.make_server(env, lambda: BigS(env, 0))
+                c = impl.Conn(env, srv)
+                env.settle(); c.take()
+                c.feed(cl.frame(cl.handshake_response(user=b"u", maxpkt=mp), 1)); c.take()
+                c.feed(cl.frame(bytes([cl.COM_QUERY]) + b"SELECT c FROM t", 0))
+                c.feed(cl.frame(bytes([cl.COM_PING]), 0))
+                got = c.take()
+                distinct.add(("maxpkt", mp, vs)); ctx.evals += 1
+                try:
+                    re_ = cl.reassemble(got)
+                    # column count, definition, EOF, row, EOF, then the PING's OK
+                    ok = len(re_) == 6 and value.encode() in re_[3][1] and len(re_[3][1]) <= vs + 9 and re_[5][0] == 1 and re_[5][1][:1] == b"\x00"
+                    shown = [(fs, len(p_), npk) for fs, p_, npk in re_][:10]
+                except Exception as e:  # noqa
+                    ok, shown = False, repr(e)[:200]
+                if not ok:
+                    core.report_violation(ctx, "a result is not reassembled by a standard client when the client announced a small max_packet_size",
+                                          dict(kind="announced-max-packet-size", max_packet_size=mp, cell_bytes=vs, reassembled=shown))
+                    break
+            finally:
+                env.close()
+
     # ---- B2: write side, length level incl. multiples of M -------------------------------------
     lens = [0, 1, M - 1, M, M + 1] if ctx.quick else [0, 1, 2, M - 2, M - 1, M, M + 1, 2 * M - 1, 2 * M, 2 * M + 1, 3 * M, 3 * M + 1]
     mlens = core.run_coq_terms(ctx, "c04l", HEADER, [f"frame_lens M {n}" for n in lens])
